@@ -53,6 +53,17 @@ def generate(tier, rng):
     for dtype in ("int64", "int32", "float32", "float64"):
         for dd_ in ([base["t"], base["r"]], [base["r"]], []):
             cases.append(dict(stream="validators", coq=False, kind="dtype", dtype=dtype, dims=dd_))
+    # every way of handing over an ndarray whose shape is not the lengths of the dimensions (same number of elements or not, down
+    # to 0-dimensional arrays and one-element ndarrays): refused, and the target stays as it was
+    for dd_ in ([], [base["r"]], [base["t"], base["r"]], [base["r"], dict(letter="o", name="only", items=["x"])]):
+        want = [len(d["items"]) for d in dd_]
+        m = int(np.prod(want)) if want else 1
+        shapes = {tuple(want), (m,), (1, m), (m, 1), tuple(want) + (1,), (1,) + tuple(want), tuple(want[::-1]), (1,), (1, 1), (1, 1, 1), (), (2,), (m + 1,)}
+        for shp in sorted(shapes):
+            for via in ("ctor", "set_values", "assign", "scalar"):
+                if via == "scalar" and dd_:
+                    continue
+                cases.append(dict(stream="validators", coq=False, kind="shape", dims=dd_, shape=list(shp), via=via))
     return cases
 
 
@@ -84,6 +95,26 @@ def run_impl(case):
             return dict(kind="ctor", accepted=True)
         except Exception as e:  # noqa
             return dict(kind="ctor", accepted=False, exc=type(e).__name__, msg=str(e)[:120])
+    if case.get("kind") == "shape":
+        dims = _ds(case["dims"])
+        nd = (np.arange(int(np.prod(case["shape"])) if case["shape"] else 1, dtype=float) + 10).reshape(case["shape"])
+        target = fd.FlodymArray(dims=dims, values=np.full(dims.shape, 3.0))
+        try:
+            if case["via"] == "ctor":
+                r = fd.FlodymArray(dims=dims, values=nd)
+            elif case["via"] == "scalar":
+                r = fd.FlodymArray.scalar(nd)
+            elif case["via"] == "set_values":
+                target.set_values(nd)
+                r = target
+            else:
+                target[...] = nd
+                r = target
+            return dict(kind="shape", accepted=True, stored=list(r.values.shape), want=list(dims.shape),
+                        target_intact=bool(np.all(target.values == 3.0)) and list(target.values.shape) == list(dims.shape))
+        except Exception as e:  # noqa
+            return dict(kind="shape", accepted=False, exc=type(e).__name__, msg=str(e)[:100], want=list(dims.shape),
+                        target_intact=isinstance(target.values, np.ndarray) and list(target.values.shape) == list(dims.shape) and bool(np.all(target.values == 3.0)))
     if case.get("kind") == "dtype":
         dims = _ds(case["dims"])
         vals = (np.arange(int(np.prod(dims.shape)) if dims.shape else 1) + 1).reshape(dims.shape).astype(case["dtype"])
@@ -126,6 +157,15 @@ def oracle(case, ob):
                 return f"{case['dtype']} values: {k} has values of shape {o['shape']} under dimensions of shape {o['want']}"
             if o["assign"] != "ok":
                 return f"{case['dtype']} values: assigning a number to {k} raised {o['assign']}"
+        return None
+    if case.get("kind") == "shape":
+        tag = f"{case['via']} with an ndarray of shape {tuple(case['shape'])} for dimensions of shape {tuple(ob['want'])}"
+        if case["shape"] == ob["want"]:
+            return None if ob["accepted"] else f"{tag}: refused ({ob['exc']}: {ob['msg'][:60]})"
+        if ob["accepted"]:
+            return f"{tag}: accepted (stored shape {ob['stored']})"
+        if not ob["target_intact"]:
+            return f"{tag}: refused, but the target array was changed"
         return None
     if case.get("kind") == "stock_ctor":
         must_reject = case["variant"] != "same"
